@@ -289,6 +289,11 @@ func (s *ShapeIndexIterator) Prev() bool {
 
 // End positions the iterator at the end of the index.
 func (s *ShapeIndexIterator) End() {
+	// Like Begin, make sure that pending updates have been applied: the end of
+	// an index whose updates are still pending is not the end of the index.
+	if !s.index.IsFresh() {
+		s.index.maybeApplyUpdates()
+	}
 	verifAccess(s.index, verifLocCells, false)
 	s.position = len(s.index.cells)
 	s.refresh()
